@@ -54,7 +54,8 @@ def instrument(granularity):
         for g, ins in list(_INSTR.items()):
             ins.uninstall()
             del _INSTR[g]
-        codes = sched.code_objects_of(pool_mod) + sched.code_objects_of(PooledClient)
+        # ... and Client.close(), which the pool's finaliser and a failing call can both be inside for one connection
+        codes = sched.code_objects_of(pool_mod) + sched.code_objects_of(PooledClient) + sched.code_objects_of(Client.close)
         _INSTR[granularity] = sched.Instrument(codes, granularity)
     return _INSTR[granularity]
 
@@ -74,7 +75,7 @@ class Token:
 
 # ----------------------------------------------------------------------------- H1 / H2: ObjectPool
 
-PROGRAMS = ("get-release", "get-destroy", "with-raises", "with-ok", "clear", "get-release-twice")
+PROGRAMS = ("get-release", "get-destroy", "with-raises", "with-ok", "clear", "get-release-twice", "with-raises-keep")
 
 
 def pool_program(name, pool, holder, tid):
@@ -108,6 +109,15 @@ def pool_program(name, pool, holder, tid):
                     if holder.get(id(o)) is not None:
                         holder["shared"] = f"{o!r} handed to thread {tid} while thread {holder[id(o)]} still holds it"
                     holder[id(o)] = None  # the context manager gives it back right away
+                    raise KeyError("application error inside the with-block")
+            except KeyError:
+                pass
+        elif name == "with-raises-keep":
+            try:
+                with pool.get_and_release(destroy_on_fail=False) as o:  # the default: a failing body keeps the object
+                    if holder.get(id(o)) is not None:
+                        holder["shared"] = f"{o!r} handed to thread {tid} while thread {holder[id(o)]} still holds it"
+                    holder[id(o)] = None
                     raise KeyError("application error inside the with-block")
             except KeyError:
                 pass
@@ -154,6 +164,9 @@ def run_pool(ch, programs, max_size, prefill, granularity):
             return f"an object is listed twice: used={used} free={free}"
         if "shared" in holder:
             return holder["shared"]
+        for o in free:
+            if holder.get(id(o)) is not None:
+                return f"{o!r} is idle in the pool while thread {holder[id(o)]} still holds it (the next checkout shares it)"
         return None
 
     s.invariant = invariant
@@ -204,7 +217,7 @@ def pool_harnesses(tier):
     hs = []
     two = [("get-release", "get-release"), ("get-release", "get-destroy"), ("get-destroy", "get-destroy"),
            ("with-raises", "get-release"), ("with-raises", "with-raises"), ("with-ok", "get-destroy"),
-           ("get-release-twice", "get-destroy")]
+           ("get-release-twice", "get-destroy"), ("with-raises-keep", "get-release"), ("with-raises-keep", "with-raises-keep")]
     for progs in two:
         for max_size in (1, 2):
             for prefill in (0, 1):
